@@ -216,10 +216,13 @@ impl Prop for C13 {
         ]
     }
     fn cases(&self, tier: Tier) -> u32 {
-        tier.pick(320, 6_000)
+        tier.pick(240, 6_000)
     }
     fn workers(&self, _tier: Tier) -> usize {
         16
+    }
+    fn release_fraction(&self, tier: Tier) -> f64 {
+        tier.pick(0.2, 0.5)
     }
     fn max_shrink_iters(&self) -> u32 {
         60
@@ -237,6 +240,8 @@ impl Prop for C13 {
             rebuild: 0,
             extra: 0,
             pressure: 0,
+            mass_delete: 0,
+            big: 0,
         };
         let cfg = EvCfg {
             authors: 2,
@@ -245,6 +250,7 @@ impl Prop for C13 {
             extreme_ids: false,
             tag_values: 0,
             tag_names: 0,
+            narrow: false,
         };
         let n_random = tier.pick(0usize, 12);
         (
